@@ -36,6 +36,7 @@ func init() {
 			{ID: "C05.R17", Floor: 4, Run: noTargetNoRelationFlag, Text: "without a target no relation is claimed: code that runs only when no target was given never passes an (ID, flag, Entity) relation triple with a flag other than the constant false"},
 			{ID: "C05.R18", Floor: 2, Run: sameTargetSkipChecked, Text: "the same-target shortcut comes after the relation check (= C10.R16)"},
 			{ID: "C05.R19", Floor: 10, Run: freshRelationFilterPerCall, Text: "generic FilterN.Filter hands out a relation filter of its own for a per-call target (= C18.R22): a relation filter with target T keeps selecting the entities whose target is T"},
+			{ID: "C05.R20", Floor: 6, Run: c18r10, Text: "the compiled generic filter loses no clause (= C18.R10): a filter with a fixed target keeps it through Register and Unregister"},
 		},
 	})
 }
